@@ -36,7 +36,10 @@ func arithAxioms(t *smt.Term) []*smt.Term {
 				smt.Implies(smt.Eq(a, zero), smt.Eq(t, zero)),
 				smt.Implies(smt.Eq(b, zero), smt.Eq(t, zero)),
 				smt.Implies(smt.Eq(a, one), smt.Eq(t, b)),
-				smt.Implies(smt.Eq(b, one), smt.Eq(t, a)))
+				smt.Implies(smt.Eq(b, one), smt.Eq(t, a)),
+				// commutativity, as a ground instance (the symbol is
+				// uninterpreted for the solver)
+				smt.Eq(t, smt.App(t.Name, t.S, b, a)))
 		case strings.HasPrefix(t.Name, "udiv"):
 			prod := smt.AppC("umul"+t.Name[4:], t.S, t, b)
 			out = append(out,
